@@ -85,7 +85,10 @@ TEXT_WORDS = ["hello", "world", "x", "é", "日本", "😀", "a.b", "1 2", "\"q\
               "[br", "*st", ".dot", "\\n", "$v", "(p)", ":", ","]
 STR_CONTENTS = ["", "a", "é", "x y", "\\\\", "\\\"", "\\u0041", "\\U01F600", "{", "}", "{}", "  ", "#", "->", "😀",
                 # lower-case and mixed-case hex digits, escapes next to each other and next to text
-                "\\u00e9", "\\U01f602", "\\u00Ff", "\\uabcd", "\\U00aBcD", "a\\u00e9b", "\\u00e9\\u00E9"]
+                "\\u00e9", "\\U01f602", "\\u00Ff", "\\uabcd", "\\U00aBcD", "a\\u00e9b", "\\u00e9\\u00E9",
+                # four / six hex digits are all the GRAMMAR asks for: values that are no scalar value (surrogates, beyond
+                # U+10FFFF) and U+0000 are well-formed literals (decoding them is the resolver's business)
+                "\\uD800", "\\udfff", "\\U110000", "\\UFFFFFF", "\\U00d800", "\\U10FFFF", "\\u0000", "\\U7fffff x"]
 NUMS = ["0", "1", "-1", "1.5", "-0.0", "007", "12345678901234567890", "3.14159"]
 
 
